@@ -217,6 +217,12 @@ func init() {
 							} else {
 								mgr.WriteUserInfo(usermanager.UserInfo{UID: uidOf(u), SessionsCap: i32(7)})
 							}
+						case strings.HasPrefix(op, "drop"):
+							// the client ends this session from its side: the server's session is closed by the
+							// notice but stays in the user's table (nothing in this driver reaps it), so a later
+							// termination meets a session whose Close reports an error
+							fmt.Sscanf(op, "drop%d.%d", &u, &s)
+							ws[fmt.Sprintf("%d.%d", u, s)].cli.Close()
 						case strings.HasPrefix(op, "close"):
 							fmt.Sscanf(op, "close%d.%d", &u, &s)
 							sp := fmt.Sprintf("%d.%d", u, s)
@@ -430,6 +436,9 @@ func init() {
 			{Scenario: "panel.usage", Params: vx.P("sessions", "0.1", "ops", "up0.1:10,round,expire0", "db", "bolt"), Bound: b(1, 2), Weight: 7},
 			{Scenario: "panel.usage", Params: vx.P("sessions", "0.1", "ops", "up0.1:10,round,expirezero0", "db", "bolt"), Bound: b(1, 2), Weight: 7},
 			{Scenario: "panel.usage", Params: vx.P("sessions", "0.1", "ops", "up0.1:10,round,cap0", "db", "bolt"), Bound: b(1, 2), Weight: 7},
+			// termination of a user one of whose sessions the peer has already ended: the others are closed all the same
+			{Scenario: "panel.usage", Params: vx.P("sessions", "0.1,0.2,0.3", "ops", "drop0.1,up0.2:300,round", "upcredit", "200", "seq", "1"), Bound: 0, Weight: 3},
+			{Scenario: "panel.usage", Params: vx.P("sessions", "0.1,0.2,0.3", "ops", "drop0.2,up0.3:300,round", "upcredit", "200", "seq", "1"), Bound: 0, Weight: 3},
 			{Scenario: "panel.usage", Params: vx.P("sessions", "0.1", "ops", "up0.1:10,round,delete0", "db", "bolt"), Bound: b(1, 2), Weight: 7},
 		}
 		for _, f := range []string{"slow", "error", "slow-error", "none"} {
